@@ -364,12 +364,52 @@ def all_files(src_dir):
     return sorted(glob.glob(os.path.join(src_dir, '*.c')))
 
 
+_INC = re.compile(r'#\s*include\s*"([^"]+\.c)"')
+
+
+def library_files(src_dir):
+    """the .c files that are library code: sources of an Extension in setup.py plus every .c they #include (transitively).
+    Build-time generators (make_p256_table.c ...) and perf/test mains are not library code and are left out of the scans.
+    None if setup.py cannot be read (then every file is scanned)."""
+    setup = os.path.join(os.path.dirname(os.path.abspath(src_dir)), 'setup.py')
+    try:
+        with open(setup, errors='replace') as f:
+            txt = f.read()
+    except OSError:
+        return None
+    lib = set()
+    for m in re.finditer(r'sources\s*=\s*\[(.*?)\]', txt, re.S):
+        for q in re.findall(r'["\']src/([^"\']+\.c)["\']', m.group(1)):
+            lib.add(os.path.basename(q))
+    if not lib:
+        return None
+    todo = list(lib)
+    while todo:
+        f = todo.pop()
+        try:
+            with open(os.path.join(src_dir, f), errors='replace') as fh:
+                body = fh.read()
+        except OSError:
+            continue
+        for inc in _INC.findall(body):
+            b = os.path.basename(inc)
+            if b not in lib:
+                lib.add(b)
+                todo.append(b)
+    return lib
+
+
 def run_scan(prop, which, src_dir, chunk=None):
     """chunk = (i, n): only the i-th of n slices of the file list (units run in parallel); None = all files"""
     if which not in SCANS:
         raise ValueError(which)
     t0 = time.time()
     files = all_files(src_dir)
+    lib = library_files(src_dir)
+    skipped = []
+    if lib is not None:
+        skipped = [os.path.basename(p) for p in files if os.path.basename(p) not in lib]
+        files = [p for p in files if os.path.basename(p) in lib]
     mine = files if chunk is None else files[chunk[0]::chunk[1]]
     fs = FileScan(src_dir)
     parsed = set()
@@ -430,6 +470,9 @@ def run_scan(prop, which, src_dir, chunk=None):
     dt = time.time() - t0
     if results:
         results[0]['seconds'] = round(dt, 2)
-    return {'functions': [], 'results': results, 'assumptions': [],
+    assumptions = []
+    if skipped and (chunk is None or chunk[0] == 0):
+        assumptions.append('not library code (no Extension of setup.py compiles or includes them), not scanned: ' + ', '.join(skipped))
+    return {'functions': [], 'results': results, 'assumptions': assumptions,
             'trusted': ['clang-14 parse of every src/*.c with the build macros (branches the build does not compile are not seen)',
                         'alloc_checked is a syntactic dominance test (first later mention must be a NULL test); it does not follow pointers through calls']}
